@@ -59,6 +59,12 @@ func verifyFunc(reg *Registry, pkgRel, key string, closureOrd int) (rep FuncRepo
 	sig := fn.Type().(*types.Signature)
 	fr := &frame{fc: fc, pkg: pkg, info: pkg.TypesInfo, fn: fn, sig: sig, contract: c}
 	fr.ords, fr.loopOrd, fr.litOrd, fr.callOrd = computeOrdinals(decl.Body, pkg.TypesInfo)
+	if closureOrd == 0 {
+		if k := danglingInvariant(c, fr.loopOrd); k > 0 {
+			rep.Error = fmt.Sprintf("contract-detached:invariant[%d] names a loop the function no longer has (%d loops)", k, len(fr.loopOrd))
+			return
+		}
+	}
 	fc.root = fr
 	st := newState()
 	// symbolic inputs
@@ -116,6 +122,10 @@ func verifyFunc(reg *Registry, pkgRel, key string, closureOrd int) (rep FuncRepo
 		}
 		inner := &frame{fc: fc, pkg: pkg, info: pkg.TypesInfo, fn: fn, sig: lsig, contract: cc}
 		inner.ords, inner.loopOrd, inner.litOrd, inner.callOrd = computeOrdinals(lit.Body, pkg.TypesInfo)
+		if k := danglingInvariant(cc, inner.loopOrd); k > 0 {
+			rep.Error = fmt.Sprintf("contract-detached:invariant[%d] of closure[%d] names a loop the literal no longer has (%d loops)", k, closureOrd, len(inner.loopOrd))
+			return
+		}
 		var largs []*Value
 		for i := 0; i < lsig.Params().Len(); i++ {
 			v := freshInput(st, lsig.Params().At(i).Type(), "in:"+cc.Params[i])
@@ -241,6 +251,23 @@ func freshInput(st *State, t types.Type, name string) *Value {
 	v := buildValue(t, "", func(path string, s *Sort) *Term { return mkVar(name+path, s) })
 	st.assumeLoaded(v)
 	return v
+}
+
+// danglingInvariant returns the ordinal of an invariant / decreases clause that names a loop the body does
+// not have (0: none). A contract written for three loops does not silently apply to a body with two.
+func danglingInvariant(c *FuncContract, loopOrd map[ast.Node]int) int {
+	max := 0
+	for _, o := range loopOrd {
+		if o > max {
+			max = o
+		}
+	}
+	for _, cl := range c.Clauses {
+		if (cl.Kind == "invariant" || cl.Kind == "decreases" || cl.Kind == "hint") && cl.Idx > max {
+			return cl.Idx
+		}
+	}
+	return 0
 }
 
 // ---- axioms and lemmas ----
